@@ -338,6 +338,7 @@ impl<'a> Sess<'a> {
             // as a front-end does: pass the index currently selected in the list on display
             let sel = match &self.last { Obs::Full { sel, cands, .. } if self.follow_sel && *sel < cands.len() => (*sel).min(255) as u8, _ => 0 };
             o = self.key(t, code, 0, sel);
+            if o == Obs::Panic { return o; }   // a poisoned context is not used further
         }
         o
     }
